@@ -4,25 +4,25 @@ import json
 
 CLAIMS = {
  "C01": ("inductive one-step obligations O1-O6 on the real receive loop and queue from an arbitrary symbolic pre-state (all window sizes 1..254, channel invariant of DESIGN Appendix C) plus bounded whole-endpoint symbolic runs (real client+server, virtual clock, symbolic per-packet fates)",
-         "channel invariant (Appendix C) is the trusted model of the transport; whole-endpoint runs bounded by window<=3, messages<=3, faults<=4, schedule deviations<=1",
+         "channel invariant (Appendix C) is the trusted model of the transport; whole-endpoint runs bounded by window<=3, messages<=3, faults<=4 (fates deliver/drop/duplicate, in the wide runs also an 8 s in-order delay, fault window after 0..3 untouched packets), schedule deviations<=1",
          "solver-based inductive step + bounded symbolic execution of go/ssa with symbolic fault schedule (z3)"),
  "C02": ("inductive step under the ideal-AEAD model: the reader in lock-step is fed every relay edit script of up to 2 segments (symbolic offsets/lengths, flips, junk, reflection); one ReadMessage returns exactly the expected record or an error; lock-step step closes the induction",
-         "ideal AEAD/HKDF (DESIGN 4.6); adversary = edit scripts over honest streams; stops at the first error",
+         "ideal AEAD/HKDF (DESIGN 4.6); adversary = edit scripts over honest streams; the inductive step stops at the first error, a separate three-record scenario (one wire segment corrupted / dropped / doubled) reads on after errors",
          "solver-based symbolic execution with idealised crypto; quantifier-free encoding of whole-ciphertext equality over functional byte arrays"),
  "C03": ("real DoHandshake of both parties executed symbolically against each other with arbitrary passphrases / expected keys under the ideal-crypto model: mismatch => responder writes 0 bytes, nobody derives keys",
          "ideal cryptography (DESIGN 4.6); adversary who knows a key is outside",
          "solver-based symbolic execution of the two-party handshake (goroutine layer) with ideal primitives"),
- "C04": ("two-party handshake, all version ranges, both patterns, payload lengths around the v0 frame limit, active MITM on version bytes (all values 0..3 on all acts) and single-byte flips: both completing => agreement on keys, version, identities, payload and rendezvous switch",
+ "C04": ("two-party handshake, all version ranges, both patterns, payload lengths around the v0 frame limit, active MITM on version bytes (all values 0..3 on all acts) and single-byte flips: both completing => agreement on keys, version, identities, payload and rendezvous switch; pairing handshake followed by the repeat handshake on the same ConnData (payload slices with spare capacity, AEAD destination aliasing modelled)",
          "ideal cryptography (DESIGN 4.6); one known finding (version bytes not in the transcript) is reported as KNOWN-FINDING, any other divergence is a violation",
          "solver-based symbolic execution with symbolic MITM substitutions"),
  "C05": ("composite symbolic run of the whole stack minus gRPC (real mailbox Server/Client, retry loops, two GBN connections, Noise handshake and record layer with ideal primitives) over an in-memory relay with symbolic stream failures and drops, plus the symbolic-length framing steps; provenance check that no relay message depends on plaintext or the auth payload",
          "relay = in-memory FIFO mailboxes behind the HashMailClient interface; composite writes are 1..3 bytes, large sizes only through the inductive framing steps (C15) and C14/C19; relay faults<=4; default schedule",
          "bounded symbolic execution of the composed endpoints (goroutine layer, virtual time, ideal crypto) with symbolic relay fault schedule"),
- "C06": ("bounded whole-endpoint symbolic runs on the virtual clock with a finite symbolic fault prefix, then reliable transport: delivery within the horizon, no closure, no retransmission after full acknowledgement; dedicated tail-loss-under-peer-traffic scenario",
+ "C06": ("bounded whole-endpoint symbolic runs on the virtual clock with a finite symbolic fault prefix, then reliable transport: delivery within the horizon, no closure, no retransmission after full acknowledgement; dedicated tail-loss-under-peer-traffic, acknowledgement-loss and post-resend-synchronisation (slow writes vs. ACK/NACK events at symbolic instants) scenarios",
          "bounds: window<=2, messages<=3, faults<=3 per direction, default schedule (+1 deviation thorough), horizon 600 virtual seconds",
          "bounded symbolic execution of both endpoints with discrete-event virtual time and symbolic fault schedule"),
  "C07": ("every run-time check (index, slice, division, nil, make) of the decoders, the live receive loop, the server handshake, Noise act parsing, record reading and control-message framing is an SMT query over symbolic input bytes; unsat = no panic within the length bounds",
-         "regexp/protojson websocket envelope not encodable (outside the claim); Noise primitives idealised",
+         "regexp/protojson websocket envelope not encodable (outside the claim); Noise primitives idealised; authenticated length fields of act two are additionally explored as chosen by a key-holding hostile party",
          "solver-based bounded symbolic execution of go/ssa (z3)"),
  "C08": ("inductive lock-step step of cipherState (symbolic key/salt/nonce incl. rotation boundary), frame condition between directions, syntactic provenance of wire bytes, concrete 1100-2500 record run across rotations",
          "ideal AEAD/HKDF; HKDF freshness assumed",
